@@ -18,7 +18,7 @@ WATCHDOG_S = 20.0
 # length bounds: custom-delimiter alphabet, newline alphabet, unicode alphabet (characters)
 LMAX = {"quick": (6, 6, 5), "thorough": (8, 8, 7)}
 ASSUMPTIONS = [
-    "sync scheduler; files live in fsspec memory:// (the same AbstractBufferedFile-free code path as local files for read_block: seek/read/tell)",
+    "sync scheduler; files live in fsspec memory:// (nothing touches disk); read_bytes/read_block only use size, seek, read and tell of the opened file, which memory:// files (BytesIO) implement like local files",
     "linedelimiter='' is not a delimiter and is outside the alphabet; linedelimiter=None means Python universal newlines "
     "(reference: translate \\r\\n and \\r to \\n, then split after \\n)",
     "line ORDER is checked (file order, then position in the file): read_text documents one partition per file/block in order",
